@@ -466,7 +466,8 @@ func (g *gen) emitC12(defs []*Def, domain bool) {
 				}
 				key := ""
 				ty := tyBase(c.Ty)
-				if c.Fam == "none" {
+				if c.Fam == "none" || ty == "rune" {
+					// families the pinned template has no decoder branch for, under their own key
 					key = "C12:decode:" + ty + "-trait"
 				}
 				g.r.Add(hx.Case{Lines: lines, Domain: domain, Nontrivial: true, Tags: []string{"decode:" + c.Fam + ":" + ty}, Key: key})
